@@ -32,11 +32,12 @@ func TestDump(t *testing.T) {
 	crashfs.Install()
 	c := &checker{r: ev.Start("C14", "fault_enumeration")}
 	t0 := time.Now()
-	r := c.execute(parseHist(hs), os.Getenv("C14_BASE") != "", -1, 0, false)
+	r := c.execute(parseHist(hs), baseKind(envInt("C14_BASE", 0)), -1, 0, false)
+	fmt.Println("fill remaining", r.fillRemaining)
 	fmt.Println("exec time", time.Since(t0), "ops", r.fs.NumOps(), "calls", r.fs.Calls())
 	ops := r.fs.Ops()
 	for _, w := range r.rows {
-		if w.step < 0 && w.opEnd-w.opStart > 0 && os.Getenv("C14_BASE") != "" && w.opStart > 40 {
+		if w.step < 0 && os.Getenv("C14_BASE") != "" && w.opStart > 40 {
 			continue
 		}
 		fmt.Printf("%-6s step=%d ops[%d,%d) calls[%d,%d) err=%q\n   before=%q\n   alt=%q\n   after=%q\n", w.name, w.step, w.opStart, w.opEnd, w.callStart, w.callEnd, w.err, w.before, w.alt, w.after)
